@@ -989,6 +989,11 @@ impl FormatString {
         let mut nested = false;
         let mut end_bracket_pos = None;
         let mut left = String::new();
+        // Braces only nest in the format spec. In the field name, i.e. before the first ':' or '!'
+        // outside square brackets, a '{' is an error and the text between '[' and ']' is taken
+        // verbatim, braces included ("{0[{]}" looks up the key "{").
+        let mut in_field_name = true;
+        let mut in_index = false;
 
         // There may be one layer nesting brackets in spec
         for (idx, c) in text.char_indices() {
@@ -996,8 +1001,16 @@ impl FormatString {
                 if c != '{' {
                     return Err(FormatParseError::MissingStartBracket);
                 }
+            } else if in_index {
+                in_index = c != ']';
+                left.push(c);
+            } else if in_field_name && c == '[' {
+                in_index = true;
+                left.push(c);
             } else if c == '{' {
-                if nested {
+                if in_field_name {
+                    return Err(FormatParseError::UnmatchedBracket);
+                } else if nested {
                     return Err(FormatParseError::InvalidFormatSpecifier);
                 } else {
                     nested = true;
@@ -1014,6 +1027,9 @@ impl FormatString {
                     break;
                 }
             } else {
+                if c == ':' || c == '!' {
+                    in_field_name = false;
+                }
                 left.push(c);
             }
         }
@@ -1021,6 +1037,8 @@ impl FormatString {
             let (_, right) = text.split_at(pos);
             let format_part = FormatString::parse_part_in_brackets(&left)?;
             Ok((format_part, &right[1..]))
+        } else if in_index {
+            Err(FormatParseError::MissingRightBracket)
         } else {
             Err(FormatParseError::UnmatchedBracket)
         }
